@@ -42,6 +42,11 @@ def _tables(case, units, classes):
         rows = [(units[a], units[b], _num(f), _num(o)) for a, b, f, o in t['rows']]
         if t.get('form') == 'map':
             conv = TableConverter({(a, b): (f, o) for a, b, f, o in rows})
+        elif t.get('form') == 'gen':
+            conv = TableConverter(r for r in list(rows))        # a one-shot iterable
+        elif t.get('form') == 'zip':
+            conv = TableConverter(zip(*[list(c) for c in zip(*rows)])) if rows \
+                else TableConverter(iter(()))
         else:
             conv = TableConverter(rows)
         classes[t['cls']].register_converter(conv)
@@ -106,7 +111,14 @@ def impl_run(case):
     if o in ('convert', 'via', 'conveq'):
         x = operand(op['x'])
         before = W.observe(x)
-        if o == 'convert':
+        if o == 'convert' and op.get('text'):
+            # the same conversion requested through the string form with an explicit unit:
+            # cls('amount symbol', unit) / Quantity('amount symbol', unit)
+            import quantity
+            fac = {'cls': type(x), 'tcls': units[op['v']].qty_cls}.get(op['text'], quantity.Quantity)
+            txt = f"{x.amount} {x.unit.symbol}"
+            res = W.guarded(lambda: fac(txt, units[op['v']]))
+        elif o == 'convert':
             res = W.guarded(lambda: x.convert(units[op['v']]))
         elif o == 'conveq':
             res = W.guarded(lambda: x.convert(units[op['v']]) == x)
@@ -118,6 +130,10 @@ def impl_run(case):
         f = {'add': operator.add, 'sub': operator.sub, 'eq': operator.eq,
              'ne': operator.ne}.get(o) or CMP[o][0]
         return {'ops': seen, 'res': W.guarded(lambda: f(x, y))}
+    if o == 'divu':
+        # quantity / unit of its own type: the dimensions cancel, a plain number
+        x = operand(op['x'])
+        return {'ops': seen, 'res': W.guarded(lambda: x / units[op['v']])}
     if o in ('neg', 'abs', 'pos'):
         x = operand(op['x'])
         f = {'neg': operator.neg, 'abs': abs, 'pos': operator.pos}[o]
